@@ -90,18 +90,58 @@ func vpClientConfig(o vpOpts) *plugin.ClientConfig {
 	}
 }
 
+// callBound: how long a driver waits for any single call into the plugin (the longest legitimate wait inside go-plugin
+// is a 5 s broker timer, twice in a row in a few histories)
+const callBound = 25 * time.Second
+
+func bounded(c vp.Caller) vp.Caller { return vp.Bounded(c, callBound) }
+
+// boundedKill: Kill as cleanup (what Kill itself does is the kill family's subject); returns false when it did not return.
+func boundedKill(cl *plugin.Client) bool {
+	done := make(chan struct{})
+	go func() { cl.Kill(); close(done) }()
+	select {
+	case <-done:
+		return true
+	case <-time.After(15 * time.Second):
+		return false
+	}
+}
+
 // startVP launches vplugin and dispenses its "vp" plugin.
 func startVP(o vpOpts) (*plugin.Client, vp.Caller, error) {
 	cl := plugin.NewClient(vpClientConfig(o))
-	rpcc, err := cl.Client()
-	if err != nil {
-		cl.Kill()
-		return nil, nil, fmt.Errorf("client: %w", err)
+	type res struct {
+		c vp.Caller
+		e error
 	}
-	raw, err := rpcc.Dispense("vp")
-	if err != nil {
-		cl.Kill()
-		return nil, nil, fmt.Errorf("dispense: %w", err)
+	ch := make(chan res, 1)
+	go func() {
+		rpcc, err := cl.Client()
+		if err != nil {
+			ch <- res{nil, fmt.Errorf("client: %w", err)}
+			return
+		}
+		raw, err := rpcc.Dispense("vp")
+		if err != nil {
+			ch <- res{nil, fmt.Errorf("dispense: %w", err)}
+			return
+		}
+		ch <- res{bounded(raw.(vp.Caller)), nil}
+	}()
+	to := o.StartTO
+	if to == 0 {
+		to = 10 * time.Second
 	}
-	return cl, raw.(vp.Caller), nil
+	select {
+	case x := <-ch:
+		if x.e != nil {
+			go cl.Kill()
+			return nil, nil, x.e
+		}
+		return cl, x.c, nil
+	case <-time.After(to + 15*time.Second):
+		go cl.Kill()
+		return nil, nil, fmt.Errorf("client: start did not return in time")
+	}
 }
